@@ -13,6 +13,10 @@ def vals (v : List ℚ) : List ℚ := (runs v).map (·.2)
 theorem getD_eq {α : Type} (l : List α) (k : ℕ) (d : α) (h : k < l.length) : l.getD k d = l[k] := by
   simp [h]
 
+theorem getD_map_lt' {α β : Type} (f : α → β) (l : List α) (k : ℕ) (d : α) (d' : β) (hk : k < l.length) :
+    (l.map f).getD k d' = f (l.getD k d) := by
+  simp [List.getD_eq_getElem?_getD, List.getElem?_map, List.getElem?_eq_getElem hk]
+
 theorem peaks_eq (v : List ℚ) :
     peaks v = (peaksCleaned (vals v)).map (fun k => (idxs v).getD k 0) := rfl
 
